@@ -1240,6 +1240,13 @@ func exhaustive3(one func(*Case)) int {
 	return n
 }
 
+// the second repaired defect, as a literal case: A00 is listed and on the exclude list; it calls A01, and A02 calls it
+func exclListedCase() *Case {
+	ep := func(a int) []Ep { return []Ep{{ID: 1, Body: []Stmt{{K: kCall, A: a, E: 1}}}} }
+	return &Case{Apps: []App{{Name: "A00", Eps: ep(1)}, {Name: "A01", Eps: []Ep{{ID: 1}}}, {Name: "A02", Eps: ep(0)}},
+		Listed: []int{0, 1}, ExclAttr: []int{0}, Shape: "listed-and-excluded"}
+}
+
 // ---------------------------------------------------------------- Gallina
 
 func gb(b bool) string {
@@ -1403,7 +1410,8 @@ Definition T := true. Definition F := false.`
 				"passthrough": c.names(c.Pass), "deps": len(o.Deps), "final_apps": len(o.Final), "plain_arrows": len(views["plain"])})
 		}
 	}
-	one(cycleCase()) // the confirmed defect first
+	one(cycleCase()) // the confirmed defects first
+	one(exclListedCase())
 	for i := 0; i < n; i++ {
 		one(genCase(ctx.Rng, ctx.Search && i%3 == 0))
 	}
